@@ -62,7 +62,8 @@ CHECKS = {
             'and re-accumulated cost against the reported and the reference distance',
             'Generated cases x ~10 path entry points in both engines (incl. compact matrices and custom start cells '
             'through ctypes with canaries around the l1+l2 index arrays); each path must be contiguous, in band, within '
-            'max_step, start/end in the relaxed corners and cost exactly the distance.',
+            'max_step, start/end in the relaxed corners and cost exactly the distance; warping_path_penalty (both engines) and '
+            'warping_amount included.',
             'Trusts vlib/ref.py; two open findings (F05a psi wider than band in C, F05b backtracking from skipped end '
             'cells) exclude narrow regions computed from the reference table.',
             'DESIGN.md §3 C05'),
@@ -70,7 +71,8 @@ CHECKS = {
             'pair list written from the property text',
             'Generated collections/containers/blocks/forms for both engines compared entry by entry with the reference '
             'pair list and reference distances; every block x flag for small n is enumerated completely for the '
-            'bookkeeping helpers (Python with and without NumPy, C length and loop order through ctypes).',
+            'bookkeeping helpers (Python with and without NumPy, C length and loop order through ctypes); per-series psi lists; '
+            'distances_array_to_matrix and distance_matrix_func routes.',
             'Trusts vlib/ref.py for entry values; the exhaustive leg is complete only for the stated n.',
             'DESIGN.md §3 C06'),
     'C07': ('schedule-owning harness: cooperative replacement of the OpenMP runtime (GOMP ABI on ucontext coroutines, '
@@ -102,7 +104,8 @@ CHECKS = {
             'DESIGN.md §3 C09'),
     'C10': ('metamorphic property-based testing (Hypothesis): relations between pairs of calls, no reference involved',
             'Generated pairs x settings x comparable variations; identity, non-negativity, symmetry with swapped psi, '
-            'monotonicity in window/psi/max_step/penalty, window=1 == ED, distance-matrix symmetry, both engines, ndim 1-2.',
+            'monotonicity in window/psi/max_step/penalty, window=1 == ED, distance-matrix symmetry, both engines, ndim 1-2; the '
+            'swap law also through the matrix routine (serial, multiprocessing and OpenMP engines).',
             'Relations only; a defect that preserves all relations is invisible here (C01/C02 cover values).',
             'DESIGN.md §3 C10'),
     'C11': ('property-based testing (Hypothesis) of the n-D routines against the univariate reference DP with vector point '
@@ -116,7 +119,8 @@ CHECKS = {
             '(reference DP with exact tie counting), otherwise invariants that hold for every choice of optimal paths',
             'Generated collections / masks / initial averages / windows / penalties for Python dba, dba(use_c), '
             'dtw_cc.dba(_ndim) and dba_loop: mean of aligned points (unique paths), range, fixed point, independence of '
-            'unselected series (bitwise), monotone fit w.r.t. the reference DTW, step bound, c untouched.',
+            'unselected series (bitwise; also without an initial average), monotone fit w.r.t. the reference DTW, step bound, c '
+            'untouched.',
             'Trusts vlib/ref.py incl. the tie counting; default inner distance, no psi/max_step.',
             'DESIGN.md §3 C12'),
     'C13': ('property-based testing (Hypothesis) against an O(n^2) reference (min over start points of the reference DTW) '
@@ -124,7 +128,8 @@ CHECKS = {
             'Generated (query, series, penalty, ndim, iterator parameters): matching function, best match (segment, path, '
             'value), k-best iterator invariants, Python = C; histories of open/advance/best_match/align operations on one '
             'alignment object must match fresh objects and leave its matrices bitwise unchanged. Iterators are consumed '
-            'through a bound so that a non-terminating iterator is a failure, not a hang.',
+            'through a bound so that a non-terminating iterator is a failure, not a hang. get_match / matching_function_* for '
+            'every end point, *_fast spellings, best_matches / best_matches_knee as prefixes of the k-best sequence.',
             'Trusts vlib/ref.py; lengths <= 10.', 'DESIGN.md §3 C13'),
     'C14': ('property-based testing (Hypothesis) against exhaustive search, generated call histories vs fresh objects, '
             'pruning activity measured by wrapping the distance / lower-bound functions the search module sees',
